@@ -296,6 +296,14 @@ static void on_doc_tree(vf_gen *g, void *u)
     if (vf_want_sample() && g->doc.n[0].nch >= 3) vf_sample("tree %s built through put() in all %u insertion orders", vf_shape(&g->doc), max_perms(&g->doc));
     check_tree(&g->doc, vf_shape(&g->doc));
 }
+static void on_doc_sib(vf_gen *g, void *u)
+{
+    (void) u;
+    if (!take()) return;
+    if (vf_deadline_passed()) { g->stop = true; return; }
+    check_bytes(g->doc.bytes, g->doc.len, vf_shape(&g->doc));
+    if (g->doc.root_kind == VK_OBJ) check_tree(&g->doc, vf_shape(&g->doc));
+}
 static void big_docs(void)
 {
     /* documents over 1000 bytes: second pass of serialize(); 10 nested objects (the wrapper's limit) */
@@ -386,6 +394,10 @@ static void worker(int w, int W, uint64_t start)
     memset(&g, 0, sizeof g);
     g.root_kind = VK_OBJ; g.max_tokens = N_TREE; g.classes = cls2; g.nclasses = 11; g.names = names; g.nnames = 5; g.max_obj_depth = 10; g.cb = on_doc_tree;
     vf_gen_run(&g);
+    /* sibling family: every pair and triple of small sibling subtrees */
+    memset(&g, 0, sizeof g);
+    g.cb = on_doc_sib;
+    vf_sibling_run(&g, 2);
 }
 
 /* --valgrind-subset: the inputs that init rejects (and the empty vector) through all overloads, in process;
